@@ -138,6 +138,11 @@ def r01b(ck, prog):
                 comparators.add(a0.d["name"])
     if not comparators:
         raise AnalysisBroken("R01b slot: msa_sort_rank passes no comparator to qsort")
+    qpos = [sr.cfg.position(c) for c in sr.body.calls("qsort")]
+    for r in sr.success_returns():
+        if sr.cfg.reaches(None, sr.cfg.position(r), avoid=qpos):
+            ck.violation("R01b", "R01b/msa_sort_rank/conditional", site(prog, r),
+                         "msa_sort_rank can return success without restoring the caller's order", prog.config)
     for F in prog.all_functions:
         if "/tests/" in F.file:
             continue
